@@ -919,6 +919,8 @@ func (h *vfE2H) exec(line string) {
 		h.doPausedRestart()
 	case "busypause": // private NSQD, topic paused while its pump is mid-backlog (seeded C03-m7)
 		h.doBusyPause()
+	case "ephtopic": // private NSQDs, #ephemeral topic next to a durable one, memory queue full (audit A5)
+		h.doEphTopic()
 	}
 }
 
